@@ -22,7 +22,16 @@ ASSUMPTIONS = [
     "ENU tracks of 0..33 observations; timestamps t0 + 250 ms * q, 1970 < t0 < 2100, built field-wise (ObsTime order is C03's subject)",
     "indices are Python ints inside the track (0 <= i <= j < size; 0 <= n <= size for > and <; n >= 1 for %); removeObsList gets a duplicate-free list of ints in any order",
     "insertion without an index is judged only when the receiving track is time-sorted; where an equal-time observation goes, and stability of sort, are free",
-    "+ of tracks whose feature-name lists differ: only positions and times are judged",
+    "feature columns may be created in any order and removed / created again before the operation; values are always read by name",
+    "+ of tracks whose feature tables differ (other names, other number, same names at other columns): the unchanged code hands out "
+    "a result without a table; demanded are positions and times, and that every name the result does list reads, for each observation, "
+    "the value this observation has under that name in its own track",
+    "follow-up edits: after a judged derivation one more feature is created (and values assigned to it) or a feature is removed on the "
+    "result or on a source; the edited track must hold its records with the edited table, every other track must be exactly what it was "
+    "(records, listed names, all values readable). Whether result and source hold the same Obs objects is free: when a column is REMOVED "
+    "from Obs objects that both hold, only positions and times of the other track are judged. One edit per case; a result without a "
+    "table and an empty track (no feature can be created, documented) are not edited",
+    "tr[i:j] is taken as a second spelling of index extraction",
 ]
 
 QMS = 250
@@ -60,17 +69,47 @@ def _rec(u, ms, names):
     return (float(u), _y(u), _z(u), ms, tuple(_feat(c, u) for c in range(len(names))))
 
 
-def _build(t0i, qs, names=(), uid0=0):
-    """-> (track, [Obs], [record]) ; record = (x, y, z, t_ms, features)"""
+def _build(t0i, qs, names=(), uid0=0, order=None, recreate=()):
+    """-> (track, [Obs], [record]) ; record = (x, y, z, t_ms, features), features in the order of `names`.
+    The feature columns are created in the order `order` (a permutation of the column numbers; default 0, 1, ..);
+    then every column of `recreate` is removed and created again with the same values (it moves to the last slot)."""
     obs = [_mk_obs(uid0 + i, _ms(t0i, q)) for i, q in enumerate(qs)]
     tr = Track([], 1)
     for o in obs:
         tr.addObs(o)
     if obs:
-        for c, name in enumerate(names):
-            tr.createAnalyticalFeature(name, [_feat(c, uid0 + i) for i in range(len(obs))])
+        for c in (order if order is not None else range(len(names))):
+            tr.createAnalyticalFeature(names[c], [_feat(c, uid0 + i) for i in range(len(obs))])
+        for k, c in enumerate(recreate):
+            if k % 2 == 0:
+                tr.removeAnalyticalFeature(names[c])
+                tr.createAnalyticalFeature(names[c], [_feat(c, uid0 + i) for i in range(len(obs))])
+            else:                                                    # the same through the [] spelling
+                tr[names[c]] = "#DELETE"
+                tr[names[c]] = [_feat(c, uid0 + i) for i in range(len(obs))]
     recs = [_rec(uid0 + i, _ms(t0i, q), names if obs else ()) for i, q in enumerate(qs)]
     return tr, obs, recs
+
+
+def _plan(trk, prefix="f"):
+    """feature plan of a generated track -> (names, creation order, re-created columns, names in table order)"""
+    nf = trk["nf"] if trk["q"] else 0
+    names = _names(nf, prefix)
+    fo = list(trk.get("fo") or [])
+    if sorted(fo) != list(range(nf)) or any(isinstance(c, bool) for c in fo):
+        fo = list(range(nf))
+    rc = [c for c in (trk.get("rc") or []) if isinstance(c, int) and not isinstance(c, bool) and 0 <= c < nf]
+    listed = [names[c] for c in fo]
+    for c in rc:
+        listed.remove(names[c])
+        listed.append(names[c])
+    return names, fo, rc, listed
+
+
+def _build_trk(trk, prefix="f", uid0=0):
+    names, fo, rc, listed = _plan(trk, prefix)
+    tr, obs, recs = _build(trk["t0"], trk["q"], names, uid0=uid0, order=fo, recreate=rc)
+    return tr, obs, recs, names, listed
 
 
 def _names(nf, prefix="f"):
@@ -137,8 +176,17 @@ def _has_dup(qs):
 SIZES = st.one_of(st.sampled_from([0, 1, 2, 3, 4, 5, 7, 8, 9, 15, 16, 17, 31, 32, 33]), st.integers(0, 33))
 
 
+def _order(draw, nf):
+    """creation order of nf feature columns and the columns that are removed and created again afterwards"""
+    if nf == 0:
+        return [], []
+    fo = draw(st.one_of(st.just(list(range(nf))), st.permutations(list(range(nf))))) if nf > 1 else [0]
+    rc = draw(st.sampled_from([[], [], [], [0], [nf - 1], [0, nf - 1] if nf > 1 else [0, 0]]))
+    return list(fo), list(rc)
+
+
 @st.composite
-def _track(draw, min_n=0, max_nf=2):
+def _track(draw, min_n=0, max_nf=3):
     n = max(min_n, draw(SIZES))
     hi = draw(st.sampled_from([-1, 0, 1, 2, max(1, n // 2), n + 2, 3 * n + 3]))
     if hi < 0:                                               # all stamps distinct
@@ -151,7 +199,8 @@ def _track(draw, min_n=0, max_nf=2):
     elif order == "reverse":
         qs.sort(reverse=True)
     nf = draw(st.integers(0, max_nf)) if n else 0
-    return {"t0": draw(st.integers(0, len(T0S) - 1)), "q": qs, "nf": nf}
+    fo, rc = _order(draw, nf)
+    return {"t0": draw(st.integers(0, len(T0S) - 1)), "q": qs, "nf": nf, "fo": fo, "rc": rc}
 
 
 def _instant(draw, qs):
@@ -174,8 +223,7 @@ def strat_sort():
 
 
 def body_sort(case):
-    names = _names(case["nf"])
-    tr, obs, recs = _build(case["t0"], case["q"], names)
+    tr, obs, recs, names, listed = _build_trk(case)
     own = {id(o): r for o, r in zip(obs, recs)}
     tr.sort()
     ids, got = _read(tr, names)
@@ -192,6 +240,8 @@ def body_sort(case):
     q = case["q"]
     n = len(q)
     cls = ["dup" if _has_dup(q) else "distinct"]
+    if listed != sorted(listed):
+        cls.append("features-in-other-order")
     if q == sorted(q):
         cls.append("already-sorted")
     elif q == sorted(q, reverse=True):
@@ -297,17 +347,19 @@ def body_insert_slots(case):
 
 
 # --- (iii) the selecting operators ---------------------------------------------------------------
-OPS = ["extract", "span", "span_track", "add", "mod_int", "mod_pat", "gt", "lt", "remove", "remove_one"]
+OPS = ["extract", "slice", "span", "span_track", "add", "add", "mod_int", "mod_pat", "gt", "lt", "remove", "remove_one"]
+DERIVING = ("extract", "slice", "span", "span_track", "add", "mod_int", "mod_pat", "gt", "lt")
+NEW = "znew"                      # name of the feature a follow-up edit creates
 
 
 @st.composite
 def strat_ops_(draw):
     trk = draw(_track())
     n = len(trk["q"])
-    kinds = [k for k in OPS if n > 0 or k not in ("extract", "remove_one")]
+    kinds = [k for k in OPS if n > 0 or k not in ("extract", "slice", "remove_one")]
     op = draw(st.sampled_from(kinds))
     case = {"trk": trk, "op": op}
-    if op == "extract":
+    if op in ("extract", "slice"):
         i, j = sorted((_index(draw, n), _index(draw, n)))
         case["i"], case["j"] = i, j
     elif op == "span":
@@ -317,12 +369,22 @@ def strat_ops_(draw):
         case["ref"] = [_instant(draw, trk["q"]) for _ in range(m)]
     elif op == "add":
         other = draw(_track())
-        kind = draw(st.sampled_from(["same", "same", "other-count", "other-names"]))
+        kind = draw(st.sampled_from(["same", "same", "other-order", "other-order", "other-count", "other-names"]))
         if len(other["q"]) and n:
-            if kind == "same":
+            if kind == "same":                                   # same names, created in the same order
+                other["nf"], other["fo"], other["rc"] = trk["nf"], list(trk["fo"]), list(trk["rc"])
+            elif kind == "other-order":                          # same names, another creation order / re-creations
+                if trk["nf"] < 2:
+                    trk["nf"] = draw(st.integers(2, 3))
+                    trk["fo"], trk["rc"] = _order(draw, trk["nf"])
                 other["nf"] = trk["nf"]
+                other["fo"], other["rc"] = _order(draw, other["nf"])
+                l1, l2 = _plan(trk)[3], _plan(other)[3]
+                if l1 == l2:
+                    other["fo"], other["rc"] = [int(nm[1:]) for nm in l1[1:] + l1[:1]], []
             elif kind == "other-names":
                 other["nf"] = trk["nf"]
+                other["fo"], other["rc"] = _order(draw, other["nf"])
                 case["prefix2"] = "g"
         case["other"] = other
     elif op == "mod_int":
@@ -343,6 +405,12 @@ def strat_ops_(draw):
         case["idx"] = idx
     elif op == "remove_one":
         case["i"] = _index(draw, n)
+    if op in DERIVING:
+        # follow-up edit of the feature table of one of the tracks after the judged derivation; then all are judged again
+        kind = draw(st.sampled_from(["none", "none", "create", "create", "create+assign", "remove"]))
+        if kind != "none":
+            case["edit"] = {"on": draw(st.sampled_from(["res", "res", "src", "src2" if op == "add" else "src"])),
+                            "kind": kind, "via": draw(st.integers(0, 1)), "col": draw(st.integers(0, 2))}
     return case
 
 
@@ -350,22 +418,60 @@ def strat_ops():
     return strat_ops_()
 
 
+def _expect_own(res, want, owners, key, what):
+    """+ of tracks whose feature tables differ (other names, other number, other creation order): the unchanged code
+    hands out a result without a table.  Demanded: the designated observations, and - whatever names the result
+    lists - reading a name returns, for every observation, the value that observation has under that name in the
+    track it comes from.  owners[i] = feature names (in the order of the record's values) of the i-th observation."""
+    _, got = _read(res, ())
+    if [g[:4] for g in got] != [w[:4] for w in want]:
+        raise Violation(key, "%s: got (x, t) %s, list model says %s" % (what, _short(got), _short(want)))
+    have = res.getListAnalyticalFeatures()
+    for nm in have:
+        for i, (w, ns) in enumerate(zip(want, owners)):
+            if nm not in ns:
+                raise Violation(key + "-features", "%s: the result lists feature %r, obs %d (x=%s) comes from a track without it" % (
+                    what, nm, i, w[0]))
+            try:
+                v = res.getObsAnalyticalFeature(nm, i)
+            except (IndexError, KeyError) as e:
+                raise Violation(key + "-features", "%s: the result lists feature %r, reading it for obs %d (x=%s) raises %s" % (
+                    what, nm, i, w[0], type(e).__name__))
+            if v != w[4][list(ns).index(nm)]:
+                raise Violation(key + "-features", "%s: obs %d (x=%s) reads %r = %r, its own value is %r" % (
+                    what, i, w[0], nm, v, w[4][list(ns).index(nm)]))
+    return have
+
+
+def _edit_ok(ed):
+    return (isinstance(ed, dict) and ed.get("on") in ("res", "src", "src2")
+            and ed.get("kind") in ("create", "create+assign", "remove")
+            and all(isinstance(ed.get(k), int) and not isinstance(ed.get(k), bool) and ed.get(k) >= 0 for k in ("via", "col")))
+
+
 def body_ops(case):
     trk, op = case["trk"], case["op"]
     t0i, qs = trk["t0"], trk["q"]
-    names = _names(trk["nf"])
-    tr, obs, L = _build(t0i, qs, names)
+    tr, obs, L, names, listed = _build_trk(trk)
     ids = [id(o) for o in obs]
     n = len(L)
     cls = [op]
     hit = False                       # argument hits an end / equality / empty-result case
+    res = want = key = what = None    # the derived track, its designated records, root-cause key, description
+    owners = None                     # + with different tables: feature names of the track each observation comes from
+    right = None                      # + : (track, ids, records, names) of the right operand
 
-    if op == "extract":
+    if op in ("extract", "slice"):
         i, j = case["i"], case["j"]
         if not (0 <= i <= j < n):
             return {"undef": True}
-        res = tr.extract(i, j)
-        _expect(res, L[i:j + 1], names, "extract-wrong", "extract(%d, %d) of %d obs" % (i, j, n))
+        if op == "extract":
+            res = tr.extract(i, j)
+            key, what = "extract-wrong", "extract(%d, %d) of %d obs" % (i, j, n)
+        else:
+            res = tr[i:j + 1]
+            key, what = "slice-wrong", "[%d:%d] of %d obs" % (i, j + 1, n)
+        want = L[i:j + 1]
         hit = i == 0 or j == n - 1 or i == j
     elif op in ("span", "span_track"):
         if op == "span":
@@ -379,34 +485,32 @@ def body_ops(case):
             res = tr.extractSpanTime(ref)
         lo, hi = _ms(t0i, min(a, b)), _ms(t0i, max(a, b))
         want = [r for r in L if lo <= r[3] <= hi]
-        _expect(res, want, names, "span-wrong", "extractSpanTime(q=%d, q=%d) of q=%s" % (a, b, qs))
+        key, what = "span-wrong", "extractSpanTime(q=%d, q=%d) of q=%s" % (a, b, qs)
         hit = a in qs or b in qs or not want or len(want) == n
         if not want:
             cls.append("empty-result")
         if a in qs or b in qs:
             cls.append("bound-equals-stamp")
     elif op == "add":
-        o = case["other"]
-        names2 = _names(o["nf"], case.get("prefix2", "f"))
-        tr2, obs2, L2 = _build(o["t0"], o["q"], names2, uid0=100)
-        ids2 = [id(x) for x in obs2]
+        tr2, obs2, L2, names2, listed2 = _build_trk(case["other"], case.get("prefix2", "f"), uid0=100)
+        right = (tr2, [id(x) for x in obs2], L2, names2)
         res = tr + tr2
-        act1 = list(names) if L else []           # an empty track has no feature table
-        act2 = list(names2) if L2 else []
-        if act1 == act2:
-            _expect(res, L + L2, names, "add-wrong", "+ of %d and %d obs" % (n, len(L2)))
+        want = L + L2
+        key, what = "add-wrong", "+ of %d obs (table %s) and %d obs (table %s)" % (n, listed, len(L2), listed2)
+        if listed == listed2:             # same names at the same columns (an empty track has no table)
             cls.append("same-table")
         else:
-            _expect(res, L + L2, (), "add-wrong", "+ of %d and %d obs" % (n, len(L2)), features=False)
+            owners = [names] * n + [names2] * len(L2)
             cls.append("different-table")
-        _unchanged(tr2, ids2, L2, names2, "add", "+ (right operand)")
+            if listed and sorted(listed) == sorted(listed2):
+                cls.append("same-names-other-order")
         hit = n == 0 or not L2
     elif op == "mod_int":
         k = case["n"]
         if k < 1:
             return {"undef": True}
         res = tr % k
-        _expect(res, L[::k], names, "mod-int-wrong", "%% %d of %d obs" % (k, n))
+        want, key, what = L[::k], "mod-int-wrong", "%% %d of %d obs" % (k, n)
         hit = k == 1 or k >= n or (n - 1) % k == 0
     elif op == "mod_pat":
         pat = [bool(b) for b in case["pat"]]
@@ -414,7 +518,7 @@ def body_ops(case):
             return {"undef": True}
         res = tr % list(pat)
         want = [r for i, r in enumerate(L) if pat[i % len(pat)]]
-        _expect(res, want, names, "mod-pattern-wrong", "%% %s of %d obs" % (pat, n))
+        key, what = "mod-pattern-wrong", "%% %s of %d obs" % (pat, n)
         hit = not any(pat) or all(pat) or len(pat) > n
         cls.append("pattern-len-%d" % len(pat))
     elif op == "gt":
@@ -422,14 +526,14 @@ def body_ops(case):
         if not (0 <= k <= n):
             return {"undef": True}
         res = tr > k
-        _expect(res, L[k:], names, "gt-wrong", "> %d of %d obs" % (k, n))
+        want, key, what = L[k:], "gt-wrong", "> %d of %d obs" % (k, n)
         hit = k in (0, n, n - 1, 1)
     elif op == "lt":
         k = case["n"]
         if not (0 <= k <= n):
             return {"undef": True}
         res = tr < k
-        _expect(res, L[:n - k], names, "lt-wrong", "< %d of %d obs" % (k, n))
+        want, key, what = L[:n - k], "lt-wrong", "< %d of %d obs" % (k, n)
         hit = k in (0, n, n - 1, 1)
     elif op in ("remove", "remove_one"):
         idx = [case["i"]] if op == "remove_one" else list(case["idx"])
@@ -454,8 +558,87 @@ def body_ops(case):
     else:
         raise ValueError(op)
 
-    if op not in ("remove", "remove_one"):
-        _unchanged(tr, ids, L, names, op, op)
+    if op in DERIVING:
+        def judge_res(k, w):
+            if owners is None:
+                _expect(res, want, names, k, w)
+            else:
+                _expect_own(res, want, owners, k, w)
+
+        def judge_sources(k, w, skip=None):
+            if skip != "src":
+                _unchanged(tr, ids, L, names, k, w)
+            if right is not None and skip != "src2":
+                _unchanged(right[0], right[1], right[2], right[3], k, w + " (right operand)")
+
+        judge_res(key, what)
+        judge_sources(op, op)
+
+        # follow-up edit: the feature table of the derived track / of a source is edited AFTER the derivation,
+        # then the edited track and the other ones are judged again (a derived track must not share state
+        # with its source through which later work on one of them reaches the other)
+        ed = case.get("edit")
+        if ed is not None and _edit_ok(ed):
+            on, kind, via, col = ed["on"], ed["kind"], ed["via"] % 2, ed["col"]
+            if on == "src2" and right is None:
+                on = "src"
+            E, Ewant, Enames = {"res": (res, want, names), "src": (tr, L, names),
+                                "src2": (right[0], right[2], right[3]) if right else None}[on]
+            Enames = tuple(Enames)
+            done = False
+            if on == "res" and owners is not None:
+                cls.append("edit-skipped:result-without-table")
+            elif kind == "remove":
+                if not Enames:
+                    cls.append("edit-skipped:no-feature")
+                else:
+                    c = col % len(Enames)
+                    if via:
+                        E[Enames[c]] = "#DELETE"
+                    else:
+                        E.removeAnalyticalFeature(Enames[c])
+                    Ewant2 = [r[:4] + (r[4][:c] + r[4][c + 1:],) for r in Ewant]
+                    Enames2 = Enames[:c] + Enames[c + 1:]
+                    done = True
+            elif not Ewant:
+                cls.append("edit-skipped:empty-track")     # documented: no feature can be created on an empty track
+            else:
+                vals = [7000.25 + k for k in range(len(Ewant))]
+                if via:
+                    E[NEW] = list(vals)
+                else:
+                    E.createAnalyticalFeature(NEW, list(vals))
+                if kind == "create+assign":
+                    vals[0] = -1.5
+                    E.setObsAnalyticalFeature(NEW, 0, -1.5)
+                    vals[-1] = -2.5
+                    E[len(vals) - 1, NEW] = -2.5
+                Ewant2 = [r[:4] + (r[4] + (v,),) for r, v in zip(Ewant, vals)]
+                Enames2 = Enames + (NEW,)
+                done = True
+            if done:
+                w2 = "%s, then %s feature on %s" % (what, kind, {"res": "the result", "src": "the source", "src2": "the right operand"}[on])
+                _expect(E, Ewant2, Enames2, "followup-edit-wrong", w2)
+                eids = set(id(o) for o in E.getObsList())
+                cls.append("edit:%s-on-%s" % (kind, on))
+                # removing a column from Obs objects that two tracks hold in common reaches both (aliasing of the
+                # observations themselves is free): then only positions and times of the other track are judged
+                for other in ("res", "src", "src2"):
+                    if other == on or (other == "src2" and right is None):
+                        continue
+                    O = {"res": res, "src": tr, "src2": right[0] if right else None}[other]
+                    shared = bool(eids & set(id(o) for o in O.getObsList()))
+                    if kind == "remove" and shared:
+                        Owant = {"res": want, "src": L, "src2": right[2] if right else None}[other]
+                        _expect(O, Owant, (), "followup-edit-%s-modified" % ("result" if other == "res" else "source"), w2, features=False)
+                        cls.append("edit:remove-on-shared-obs(records only)")
+                    elif other == "res":
+                        judge_res("followup-edit-result-modified", w2)
+                    else:
+                        judge_sources("followup-edit", w2, skip="src2" if other == "src" else "src")
+                    if other == "res" or on == "res":
+                        cls.append("edit:%s-obs" % ("shared" if shared else "copied/disjoint"))
+
     if _has_dup(qs):
         cls.append("dup")
     if n in POW2:
@@ -464,6 +647,8 @@ def body_ops(case):
         cls.append("end/equality-argument")
     if trk["nf"]:
         cls.append("with-features")
+    if listed != sorted(listed):
+        cls.append("features-in-other-order")
     return {"nt": bool(_has_dup(qs) or n in POW2 or hit), "cls": cls}
 
 
@@ -607,7 +792,11 @@ def body_hist(case):
 
 
 RULE = ("sort / ops / histories: Hypothesis; sizes 0..33 weighted to 0,1,2,2^k-1,2^k,2^k+1; stamps on a half-second lattice of width "
-        "0..3n so duplicates are common; order shuffled / sorted / reverse; 0-2 feature columns; times cross a year end, 29 Feb, a minute. "
+        "0..3n so duplicates are common; order shuffled / sorted / reverse; 0-3 feature columns created in natural or permuted order, "
+        "optionally one or two of them removed and created again (method or [] spelling); times cross a year end, 29 Feb, a minute. "
+        "ops: + gets a right operand with the same table / the same names in another creation order / another number / other names; "
+        "every deriving operation is followed in half of the cases by an edit (create, create + assign, remove; method or [] spelling) "
+        "on the result, the source or the right operand, after which all tracks are judged again. "
         "insert_slots: enumerated completely - for every size 0..33 the sorted tracks made of runs of r equal stamps (all r), of one block of "
         "m equal stamps at every position, of one wide gap at every position, and (size <= 10 quick / 14 thorough) every pattern of ties; "
         "each with every instant from 2 quarter-steps before the first to 2 after the last stamp (before / between / equal / after), "
@@ -621,6 +810,6 @@ SUBCHECKS = [
     SubCheck("sort", body_sort, strategy=strat_sort, quick=6000, thorough=150000, qshards=2),
     SubCheck("insert_slots", body_insert_slots, enum=enum_insert, qshards=6,
              rule="all sizes 0..33 x tie-pattern families x every slot"),
-    SubCheck("ops", body_ops, strategy=strat_ops, quick=20000, thorough=600000, qshards=6),
+    SubCheck("ops", body_ops, strategy=strat_ops, quick=20000, thorough=600000, qshards=8),
     SubCheck("histories", body_hist, strategy=strat_hist, quick=8000, thorough=200000, qshards=4),
 ]
